@@ -630,6 +630,10 @@ pub fn probe_plan(root: &Arc<dyn ExecutionPlan>) -> PlanProbe {
     p
 }
 
+pub fn panic_text(payload: &Box<dyn std::any::Any + Send>) -> String {
+    payload.downcast_ref::<&str>().map(|s| s.to_string()).or_else(|| payload.downcast_ref::<String>().cloned()).unwrap_or_else(|| "<non-string panic payload>".into())
+}
+
 pub async fn walk_plan(ctx: &SessionContext, physical: &Arc<dyn ExecutionPlan>) -> (Vec<WalkNode>, usize) {
     let mut nodes = vec![];
     let mut skipped = 0;
@@ -647,7 +651,12 @@ pub async fn walk_plan(ctx: &SessionContext, physical: &Arc<dyn ExecutionPlan>) 
                 continue;
             }
         };
-        let parts = collect_partitioned(fresh.clone(), ctx.task_ctx()).await.map_err(|e| engine_err(&e, "execute"));
+        // a panic of an operator says nothing about the walker properties (it is a crash, C01/C20's business): the node
+        // carries it as a run-time error (label `node-panic`), the checkers skip it like any failed node
+        let parts = match futures::FutureExt::catch_unwind(std::panic::AssertUnwindSafe(collect_partitioned(fresh.clone(), ctx.task_ctx()))).await {
+            Ok(r) => r.map_err(|e| engine_err(&e, "execute")),
+            Err(payload) => Err(EngineErr { class: ErrClass::Internal, stage: "execute-panic", message: panic_text(&payload) }),
+        };
         nodes.push(WalkNode { path, depth, name, display, plan: fresh, parts });
     }
     (nodes, skipped)
@@ -672,6 +681,9 @@ pub fn plan_labels(case: &WalkCase, w: &Walk) -> Vec<String> {
     }
     if w.skipped_work_table > 0 {
         l.push("skipped-work-table-subtree".into());
+    }
+    if w.nodes.iter().any(|n| matches!(&n.parts, Err(e) if e.stage == "execute-panic")) {
+        l.push("node-panic".into());
     }
     l.push(format!("nodes:{}", match w.nodes.len() {
         0..=2 => "1-2",
